@@ -60,6 +60,9 @@ def gen_plan(profile, seed, tier="quick"):
              "pct_depth": rng.randrange(1, 4) if not deep else rng.randrange(2, 6),
              "deep": deep,
              "small": rng.random() < (0.4 if not deep else 0.15),
+             # new numeric constants of the library (thresholds, sizes) are divided by
+             # 2**const_shift in a third of the runs
+             "const_shift": _pick(rng, [0, 0, 0, 0, 8, 12, 16]),
              "simple_waves": rng.random() < 0.3}
     # module slots: groups of a forward family and (where one exists) its inverse
     fams = list(catalog.FWD_FAMILIES)
